@@ -107,12 +107,27 @@ def gen_case(rng, stream):
     rng.shuffle(slaves)
     anch = {"demand": ths + [F(0)], "supply": [F(10)], "utilisation": [unwire(c["low"]) for c in ctls],
             "allocation": [unwire(c["high"]) for c in ctls]}
-    return {"kind": "switch", "ctls": ctls, "slaves": slaves, "default": 0, "pool": pool,
+    # controllers may arrive unbound, already bound to the switch's pool, or bound to another object that
+    # compares equal to it (pools that define equality by value, e.g. by the name of the site they drive):
+    # the constructor accepts all three and all of them have to act on the switch's own pool afterwards
+    binds = [rng.choice(["none", "none", "same", "twin"]) if rng.random() < 0.5 else "none" for _ in ctls]
+    return {"kind": "switch", "ctls": ctls, "slaves": slaves, "default": 0, "pool": pool, "binds": binds,
             "ops": gen_ops(rng, n, lambda f: anch[f])}
 
 
-def mkpool(p):
-    return RecPool(unwire(p["supply"]), unwire(p["demand"]), unwire(p["util"]), unwire(p["alloc"]))
+class EqPool(RecPool):
+    """a pool with equality by value: every EqPool of one site equals every other"""
+    site = "site"
+
+    def __eq__(self, other):
+        return isinstance(other, EqPool) and other.site == self.site
+
+    def __hash__(self):
+        return hash(self.site)
+
+
+def mkpool(p, cls=RecPool):
+    return cls(unwire(p["supply"]), unwire(p["demand"]), unwire(p["util"]), unwire(p["alloc"]))
 
 
 def mkctl(c, target):
@@ -142,7 +157,8 @@ def mkrule(spec, rid, log):
 
 def impl(case):
     kind = case["kind"]
-    pool = mkpool(case["pool"])
+    binds = case.get("binds") or []
+    pool = mkpool(case["pool"], EqPool if "twin" in binds else RecPool)
     obs, calls = [], []
     if kind in ("linear", "rel"):
         try:
@@ -159,7 +175,8 @@ def impl(case):
     if kind == "switch":
         from cobald.controller.switch import DemandSwitch
         try:
-            ctls = [mkctl(c, None) for c in case["ctls"]]
+            twin = {"none": lambda: None, "same": lambda: pool, "twin": lambda: mkpool(case["pool"], EqPool)}
+            ctls = [mkctl(c, twin[binds[i] if binds else "none"]()) for i, c in enumerate(case["ctls"])]
         except REJECT:
             return {"ctor": "reject-slave"}
         for i, c in enumerate(ctls):
